@@ -58,7 +58,7 @@ def replay(rec: Dict[str, Any]) -> List[Tuple[str, Dict[str, Any], str]]:
                     continue
                 disc = _edits(m, node, tbl, d, quick=bool(sname))
                 if not disc and not sname:
-                    disc = _nested_twice(m, node, tbl, d) or _replace_lookalike(m, node, tbl, d)
+                    disc = _nested_twice(m, node, tbl, d) or _replace_lookalike(m, node, tbl, d) or _text_document_twice(m, node, tbl, d)
                     if disc:
                         disc = "pointer-object:" + disc
                 if disc:
@@ -182,6 +182,25 @@ def _replace_lookalike(m: Any, node: Dict[str, Any], tbl: DocTable, d: int) -> s
             return "replace-by-a-boolean-number-look-alike-left-the-old-value"
     except BaseException as e:  # noqa: BLE001
         return f"replace-by-a-look-alike-raised-{exc_family(e)}"
+    return ""
+
+
+def _text_document_twice(m: Any, node: Dict[str, Any], tbl: DocTable, d: int) -> str:
+    """The document given as JSON text: patched, the result edited by the caller, the same text patched again."""
+    from jsonpath import JSONPatch
+
+    try:
+        text = json.dumps(tbl.fresh(d))
+        patch = JSONPatch().test(m.pointer(), m.obj).replace(m.pointer(), NEW)
+        r1 = patch.apply(text)
+        if isinstance(r1, list):
+            r1.append("edited-by-caller")
+        elif isinstance(r1, dict):
+            r1["edited-by-caller"] = True
+        if canon(tag(patch.apply(text))) != canon(node["replaced"]):
+            return "second-patch-of-the-same-json-text-differs"
+    except BaseException as e:  # noqa: BLE001
+        return f"patch-of-json-text-raised-{exc_family(e)}"
     return ""
 
 
